@@ -7,6 +7,7 @@ import TurnModel.Props.C02
 import TurnModel.Props.C10
 import TurnModel.Props.C11
 import TurnModel.Lemmas.ServerHandlers
+import TurnModel.Gen.Consts
 namespace Turn.C05
 open Turn.Srv
 
@@ -121,5 +122,12 @@ theorem stream_preserves_frames (msgs : List (Nat × Bytes)) (hv : ∀ m ∈ msg
   obtain ⟨r, c', h1, _⟩ := C10.framer_roundtrip _ hwf chunks [] [] (by simpa using h)
   simp only [List.length_map] at h1
   rw [h1]
+
+
+/-- regenerated: the relay reader drops above 1600 bytes and reads into a buffer one byte larger (so a
+    1601-byte datagram is recognised as oversize instead of being cut); the default inbound MTU is 1600 -/
+theorem relay_buffer_regenerated :
+    Gen.Consts.relay_dropAbove = 1600 ∧ Gen.Consts.relay_bufferSize = Gen.Consts.relay_dropAbove + 1 ∧
+    Gen.Consts.allocation_rtpMTU = 1600 ∧ Gen.Consts.default_inboundMTU = 1600 := by decide
 
 end Turn.C05
